@@ -111,8 +111,10 @@ impl<R: Round> Context<R> {
 
             let guard_bits = self.precision.bit_len() * 2; // heuristic
             let rev_context = Context::<R::Reverse>::new(self.precision + guard_bits);
-            let pow = rev_context.powi(base, exp.into()).value();
-            let inv = rev_context.repr_div(Repr::one(), pow.repr);
+            // the inverse of an inexact power can divide exactly: keep the flag of the power
+            let inv = rev_context
+                .powi(base, exp.into())
+                .and_then(|pow| rev_context.repr_div(Repr::one(), pow.repr));
             let repr = inv.and_then(|v| self.repr_round(v));
             return repr.map(|v| FBig::new(v, *self));
         }
